@@ -80,7 +80,7 @@ SPEC = dict(
          "full N<=3 x L<=5 (19608 strings), small4 N<=5 x abc L<=3 (65148 ASTs), tiny/mini N<=5 and tiny/star N<=6 (10560 ASTs) x abc L<=4. "
          "flags: every AST <= N (quick 3 / thorough 4) nodes over {a,b,B,.,[ab],[^a],^,$} x every subset of {i,s,m,x} x {'',FH} x every string <= 3 over {a,A,b,\\n}: "
          "verdict, option independence and Match group-0 positions. history: every AST <= 3 nodes (quick: small atoms, 605; thorough: full, 2465), one compiled object and "
-         "one Match object reused over all 900 ordered pairs of a fixed 30-string set (with and without Match), compared with fresh objects and the reference. tokrep: every "
+         "one Match object reused over all 900 ordered pairs of a fixed 30-string set (with and without Match), compared with fresh objects and the reference. tokrep (also: every window [start,end) of every string through matches(str, start, end, Match*) against matches() on a stand-alone copy of the window, verdict and shifted group-0 position): every "
          "full AST <= N nodes (quick N=3 x strings <= 4, thorough N=4 x strings <= 3, over {a,b,c,U+10000}): tokenize/replace/Match positions vs reference leftmost matches. "
          "malformed: 196-entry catalogue (101 malformed => ParseException, 5 bad option strings, 23 must-not-crash, 67 valid corners with by-construction examples) + every "
          "AST <= N (3/4) nodes containing the quantifier {2,1} (374 / 7735). facet: every full AST <= N (2/3) nodes as xs:pattern facet validating 400 instance values "
